@@ -88,3 +88,16 @@ func init() {
 		Rules:       []*Rule{ruleScopePairEval, ruleSignal, ruleFresh},
 	})
 }
+
+func init() {
+	Register(&Property{
+		ID: "C05",
+		Explanation: "Decides the rejection mechanism structurally: text after a complete statement or after `end` is never skipped without an " +
+			"end-of-line assertion or a recorded error (R-EOLSTATE, path-sensitive typestate over every parser function with verified callee " +
+			"contracts); evaluation is gated on an error-free parse in the library entry point and in `evy run`, which reports on stderr with " +
+			"status 1 and writes no SVG for a rejected program (R-PARSEGATE).",
+		NotDecided:  "That each static check's predicate is right for every program (scope, type and termination predicates are value-level).",
+		Assumptions: []string{"advancePastNL is the only routine that discards more than one token"},
+		Rules:       []*Rule{ruleEOLState, ruleParseGate},
+	})
+}
